@@ -47,7 +47,7 @@ pub struct Outcome {
 }
 
 /// Runs one query on a fresh store; `sched` = tokens ("c" or shard number) to force, or None.
-pub fn run_query(ctl: &Arc<Ctl>, sc: &Value, ns: usize, sched: Option<&Vec<Value>>, delays: Option<(u64, u64)>, use_iter: bool, abandon: bool) -> Outcome {
+pub fn run_query(ctl: &Arc<Ctl>, sc: &Value, ns: usize, sched: Option<&Vec<Value>>, delays: Option<(u64, u64)>, use_iter: bool, abandon: bool, hold_ms: u64) -> Outcome {
     let plan = Plan::new();
     plan.metric_limit.store(jint(sc, "limit"), Ordering::SeqCst);
     let mut store: DStore = TrackStoreBuilder::new(ns)
@@ -94,7 +94,11 @@ pub fn run_query(ctl: &Arc<Ctl>, sc: &Value, ns: usize, sched: Option<&Vec<Value
     });
     let mut stuck = 0;
     if let Some(s) = sched {
-        for tok in s {
+        for (ti, tok) in s.iter().enumerate() {
+            // a slow worker: the last step of the schedule is granted late (a schedule like any other)
+            if hold_ms > 0 && ti + 1 == s.len() {
+                std::thread::sleep(Duration::from_millis(hold_ms));
+            }
             let key = match tok {
                 Value::String(c) if c == "c" => {
                     if !owned {
@@ -159,13 +163,14 @@ fn strip(v: &[Value], keys: &[&str]) -> Vec<Value> {
 pub fn main(opts: &Opts) {
     let ctl = Ctl::install();
     let mut rep = Report::new();
+    let hold_ms = opts.u64("hold-ms", 0);
     for_each_case(opts, |idx, c| {
         rep.cases += 1;
         rep.steps += jarr(&c, "sched").len() as u64;
         rep.sample(&c);
         let sc = jget(&c, "sc");
         let ns = jint(&c, "ns") as usize;
-        let o = run_query(&ctl, sc, ns, Some(jarr(&c, "sched")), None, idx % 2 == 1, false);
+        let o = run_query(&ctl, sc, ns, Some(jarr(&c, "sched")), None, idx % 2 == 1, false, hold_ms);
         rep.count(if idx % 2 == 1 { "consumed_by_iterator" } else { "consumed_by_all" }, 1);
         let sched = jarr(&c, "sched");
         // non-trivial: >= 2 candidates and an arrival order different from shard order, or a caller step between worker steps
@@ -241,7 +246,7 @@ pub fn record(opts: &Opts) {
         let limit = [1, 3, 10][rng.gen_range(0..3)];
         let sc = json!({"tracks": tracks, "cands": cands, "owned": owned, "cls": rng.gen_range(0..2),
                         "baked": rng.gen_bool(0.4), "limit": limit});
-        let o = run_query(&ctl, &sc, ns, None, Some((seed * 1000 + k as u64, max_us)), k % 2 == 1, k % 5 == 4);
+        let o = run_query(&ctl, &sc, ns, None, Some((seed * 1000 + k as u64, max_us)), k % 2 == 1, k % 5 == 4, 0);
         if o.hang {
             hangs += 1;
         }
